@@ -40,7 +40,7 @@ package bufprotoplugin
 //
 //@ func applyInsertionPoint(ctx, file, readBucket, writeBucket) (retErr)
 //@   property C17
-//@   modifies ghost.fail, ghost.wfail, ghost.sinkPaths, ghost.sinkBuckets, ghost.lastPutOptions, ghost.buf, ghost.v_scanPos, ghost.v_match
+//@   modifies ghost.fail, ghost.wfail, ghost.sinkPaths, ghost.sinkBuckets, ghost.lastPutOptions, ghost.buf, ghost.v_scanPos, ghost.v_scanEnded, ghost.v_match
 //@   requires readBucket != nil
 //@   ensures only-the-target {C17 C13}: ghost.sinkPaths == add(old(ghost.sinkPaths), file.GetName())
 //@   ensures target-read-from-read-bucket {C17 C13}: readBucket in ghost.sinkBuckets
@@ -55,7 +55,7 @@ package bufprotoplugin
 // engine treats as unknown calls; the interface contract in C17_writer.spec has no heap effect and says why.)
 //@ func (h *responseWriter) WriteResponse(ctx, writeBucket, response, options) (err)
 //@   property C17
-//@   modifies heap, ghost.fail, ghost.wfail, ghost.sinkPaths, ghost.sinkBuckets, ghost.lastPutOptions, ghost.buf, ghost.v_scanPos, ghost.v_match, ghost.v_ipRead
+//@   modifies heap, ghost.fail, ghost.wfail, ghost.sinkPaths, ghost.sinkBuckets, ghost.lastPutOptions, ghost.buf, ghost.v_scanPos, ghost.v_scanEnded, ghost.v_match, ghost.v_ipRead
 //@   ghost before "for _, file := range response.File" v_ipRead := writeResponseOptions.insertionPointReadBucket
 //@   ensures no-options-no-bucket: len(options) == 0 ==> ghost.v_ipRead == nil
 //@   ensures names-only {C17 C13}: forall q string :: q in ghost.sinkPaths && !(q in old(ghost.sinkPaths)) ==> (exists i int :: 0 <= i && i < len(response.File) && q == response.File[i].GetName())
@@ -86,7 +86,7 @@ package bufprotoplugin
 // documented TODO), aliasing of Scanner.Bytes() with the scanner's buffer.
 //@ func writeInsertionPoint(ctx, insertionPointFile, targetFile) (r, retErr)
 //@   property C17
-//@   modifies ghost.buf, ghost.v_scanPos, ghost.v_match
+//@   modifies ghost.buf, ghost.v_scanPos, ghost.v_scanEnded, ghost.v_match
 //@   use v_ipOut-zero, v_ipOut-step, v_ipFound-zero, v_ipFound-step, v_str-newline, v_ws-def
 //@   reveal v_marker
 //@   ghost after "match := []byte(" v_match := v_str(match)
@@ -98,6 +98,7 @@ package bufprotoplugin
 //@   ensures retErr != nil ==> isNilSlice(r)
 //@   loop 0 invariant postInsertionContent != nil && targetScanner != nil && v_str(newline) == "\n" && ghost.v_match == v_str(match)
 //@   loop 0 invariant 0 <= i && i == ghost.v_scanPos[targetScanner] && i <= v_scanEnd(targetScanner)
+//@   loop 0 invariant !ghost.v_scanEnded[targetScanner]
 //@   loop 0 invariant ghost.buf[postInsertionContent] == v_ipOut(v_readerLines(targetFile), i, ghost.v_match, v_splitLines(insertionPointFile.GetContent()))
 //@   loop 0 invariant found == v_ipFound(v_readerLines(targetFile), i, ghost.v_match)
 //@   canary ensures retErr != nil
@@ -120,18 +121,19 @@ package bufprotoplugin
 // the rest of the content is silently dropped; what IS proved is delivered-lines-written.
 //@ func writeWithPrefixAndLineEnding(dst, src, prefix, newline) (err)
 //@   property C17
-//@   modifies ghost.buf, ghost.v_scanPos
+//@   modifies ghost.buf, ghost.v_scanPos, ghost.v_scanEnded
 //@   requires dst != nil
 //@   use v_prefixed-zero, v_prefixed-step
 //@   ensures delivered-lines-written: ghost.buf[dst] == old(ghost.buf)[dst] + v_prefixed(v_readerLines(src), v_readerEnd(src), v_str(prefix), v_str(newline))
 //@   ensures scan-failure-reported: (err == nil) <==> v_readerEnd(src) == len(v_readerLines(src))
 //@   ensures all-lines-written: err == nil ==> ghost.buf[dst] == old(ghost.buf)[dst] + v_prefixed(v_readerLines(src), len(v_readerLines(src)), v_str(prefix), v_str(newline))
 //@   ensures other-buffers-unchanged: forall b ref :: b != dst ==> ghost.buf[b] == old(ghost.buf)[b]
-//@   ensures other-scanners-unchanged: forall s ref :: s in old(ghost.v_scanPos) ==> ghost.v_scanPos[s] == old(ghost.v_scanPos)[s]
+//@   ensures other-scanners-unchanged: forall s ref :: s in old(ghost.v_scanPos) ==> ghost.v_scanPos[s] == old(ghost.v_scanPos)[s] && ghost.v_scanEnded[s] == old(ghost.v_scanEnded)[s]
 //@   loop 0 invariant scanner != nil && !(scanner in old(ghost.v_scanPos)) && 0 <= ghost.v_scanPos[scanner] && ghost.v_scanPos[scanner] <= v_scanEnd(scanner)
 //@   loop 0 invariant ghost.buf[dst] == old(ghost.buf)[dst] + v_prefixed(v_readerLines(src), ghost.v_scanPos[scanner], v_str(prefix), v_str(newline))
 //@   loop 0 invariant forall b ref :: b != dst ==> ghost.buf[b] == old(ghost.buf)[b]
-//@   loop 0 invariant forall s ref :: s in old(ghost.v_scanPos) ==> ghost.v_scanPos[s] == old(ghost.v_scanPos)[s]
+//@   loop 0 invariant forall s ref :: s in old(ghost.v_scanPos) ==> ghost.v_scanPos[s] == old(ghost.v_scanPos)[s] && ghost.v_scanEnded[s] == old(ghost.v_scanEnded)[s]
+//@   loop 0 invariant !ghost.v_scanEnded[scanner]
 //
 //@ func newResponseWriter(logger) (r)
 //@   property C17
